@@ -18,12 +18,15 @@ CONSTANTS MaxOps
 VARIABLES store,     \* history of encryptions: [sv |-> SecureValue(method, ciphertext), key, pt]
           nonce,     \* number of random draws so far (IVs and salts)
           chal,      \* the challenge field's value: NoChal or [alg, salt, saltlen, pt]
+          onfile,    \* which key each key FILE holds right now (the KeyFile objects are named after
+                     \* the key their file held at the start; files can be swapped between sessions)
           ev, steps
-vars == <<store, nonce, chal, ev, steps>>
-St == [store |-> store, nonce |-> nonce, chal |-> chal]
+vars == <<store, nonce, chal, onfile, ev, steps>>
+St == [store |-> store, nonce |-> nonce, chal |-> chal, onfile |-> onfile]
 
 Keys == {"K1", "K2"}
-KeyBytes(k) == IF k = "K1" THEN [i \in 1..32 |-> i] ELSE [i \in 1..32 |-> 100 + i]
+\* (K1 contains the bytes 10 and 13; K2 ENDS in a line feed - a key is 32 arbitrary bytes)
+KeyBytes(k) == IF k = "K1" THEN [i \in 1..32 |-> i] ELSE [i \in 1..32 |-> IF i = 32 THEN 10 ELSE 100 + i]
 Methods == {"aes", "xor", "best"}
 Concrete(m) == IF m = "best" THEN "aes" ELSE m
 
@@ -58,35 +61,46 @@ DecryptV(key, sv) ==
         ELSE Dec(FALSE, <<>>, TRUE)                                                 \* wrong key: error or garbage, never pt
 
 NoChal == [alg |-> "none", salt |-> 0, saltlen |-> 0, pt |-> ""]
-Init == store = <<>> /\ nonce = 0 /\ chal = NoChal /\ ev = [op |-> "Init"] /\ steps = 0
+Init == store = <<>> /\ nonce = 0 /\ chal = NoChal /\ onfile = [k \in Keys |-> k] /\ ev = [op |-> "Init"] /\ steps = 0
 Tick == steps < MaxOps /\ steps' = steps + 1
 
-Encrypt(key, m, pt) ==
+\* key names the KeyFile object; the key that encrypts is the one its file holds when the session opens
+Encrypt(kf, m, pt) ==
     LET aes == Concrete(m) = "aes"
+        key == onfile[kf]
         sv == EncryptV(key, m, pt, nonce + 1)
     IN  /\ store' = Append(store, [sv |-> sv, key |-> key, pt |-> pt])
         /\ nonce' = IF aes THEN nonce + 1 ELSE nonce
-        /\ UNCHANGED chal
-        /\ ev' = [op |-> "Encrypt", key |-> key, m |-> m, pt |-> pt, out |-> "ok", sv |-> sv]
+        /\ UNCHANGED <<chal, onfile>>
+        /\ ev' = [op |-> "Encrypt", key |-> kf, m |-> m, pt |-> pt, out |-> "ok", sv |-> sv]
 
 \* the same bytes encrypted twice while ONE key session is open (nested: the second call inside
 \* an inner `with` of the same key file): two independent encryptions, each with its own IV
 PairPlaintexts == {PT(0, 0), PT(16, 200), PT(33, 129)}
-EncryptPair(key, m, pt, nested) ==
+EncryptPair(kf, m, pt, nested) ==
     LET aes == Concrete(m) = "aes"
+        key == onfile[kf]
         sv1 == EncryptV(key, m, pt, nonce + 1)
         sv2 == EncryptV(key, m, pt, nonce + 2)
     IN  /\ store' = store \o <<[sv |-> sv1, key |-> key, pt |-> pt], [sv |-> sv2, key |-> key, pt |-> pt]>>
         /\ nonce' = IF aes THEN nonce + 2 ELSE nonce
-        /\ UNCHANGED chal
-        /\ ev' = [op |-> "EncryptPair", key |-> key, m |-> m, pt |-> pt, nested |-> nested, out |-> "ok", sv |-> sv1, sv2 |-> sv2]
+        /\ UNCHANGED <<chal, onfile>>
+        /\ ev' = [op |-> "EncryptPair", key |-> kf, m |-> m, pt |-> pt, nested |-> nested, out |-> "ok", sv |-> sv1, sv2 |-> sv2]
 
-Decrypt(key, i) ==
-    LET r == DecryptV(key, store[i].sv) IN
+\* the files of the two key-file objects exchange their contents (between sessions): every later
+\* session of an object uses what its file holds now
+Swap ==
+    /\ onfile' = [k \in Keys |-> onfile[IF k = "K1" THEN "K2" ELSE "K1"]]
     /\ UNCHANGED <<store, nonce, chal>>
+    /\ ev' = [op |-> "Swap", out |-> "ok"]
+
+Decrypt(kf, i) ==
+    LET key == onfile[kf]
+        r == DecryptV(key, store[i].sv) IN
+    /\ UNCHANGED <<store, nonce, chal, onfile>>
     \* with a wrong AES key the implementation raises or returns garbage (which of the two
     \* depends on the random IV): the property only says "never the plaintext"
-    /\ ev' = [op |-> "Decrypt", key |-> key, i |-> i,
+    /\ ev' = [op |-> "Decrypt", key |-> kf, i |-> i,
               out |-> IF r.garbage \/ (~r.ok /\ store[i].sv.m = "aes" /\ store[i].key # key) THEN "notpt"
                       ELSE IF r.ok THEN "ok" ELSE "error",
               ret |-> IF r.ok /\ ~r.garbage THEN BytesV(r.pt) ELSE NoneV,
@@ -97,7 +111,7 @@ Decrypt(key, i) ==
 PadOk(blk) == LET last == blk[16] IN last \in 1..16 /\ \A j \in (17 - last)..16 : blk[j] = last
 DecryptTruncated(i) ==
     /\ store[i].sv.m = "aes" /\ Len(store[i].pt) >= 17
-    /\ UNCHANGED <<store, nonce, chal>>
+    /\ UNCHANGED <<store, nonce, chal, onfile>>
     /\ ev' = [op |-> "DecryptTruncated", i |-> i,
               out |-> IF PadOk(SubSeq(store[i].pt, 1, 16)) THEN "ok" ELSE "error"]
 
@@ -111,7 +125,7 @@ BadCts == {[m |-> "aes", ct |-> [k |-> "raw", y |-> PT(0, 0)]],       \* empty
            [m |-> "", ct |-> [k |-> "raw", y |-> PT(32, 6)]]}
 DecryptBad(key, sv) ==
     LET r == DecryptV(key, sv) IN
-    /\ UNCHANGED <<store, nonce, chal>>
+    /\ UNCHANGED <<store, nonce, chal, onfile>>
     /\ ev' = [op |-> "DecryptBad", key |-> key, sv |-> sv, out |-> IF r.ok THEN "ok" ELSE "error"]
 
 \* SecureField.to_python on stored values of the wrong shape or encoding.  shape names are
@@ -123,7 +137,7 @@ StoredShapes == {"none", "plain-str", "dict-no-method", "dict-null-method", "dic
                  "dict-int-method", "dict-no-ciphertext", "dict-int-ciphertext", "dict-bad-padding-b64",
                  "dict-foreign-chars-b64", "dict-aes-short", "dict-aes-unaligned", "dict-aes-wrong-key", "list", "int"}
 LoadStored(shape, fm) ==
-    /\ UNCHANGED <<store, nonce, chal>>
+    /\ UNCHANGED <<store, nonce, chal, onfile>>
     /\ ev' = [op |-> "LoadStored", shape |-> shape, fm |-> fm,
               out |-> IF shape \in {"none", "plain-str"} THEN "ok" ELSE "error"]
 
@@ -140,27 +154,28 @@ Assign(alg, p) ==        \* cfg.password = plaintext   (the field's algorithm is
     /\ (chal = NoChal \/ chal.alg = alg)
     /\ chal' = DV(alg, nonce + 1, p)
     /\ nonce' = nonce + 1
-    /\ UNCHANGED store
+    /\ UNCHANGED <<store, onfile>>
     /\ ev' = [op |-> "Assign", alg |-> alg, p |-> p, out |-> "ok"]
 LoadPlain(alg, p) ==     \* a plaintext written by hand into a document is hashed on load
     /\ p # "bytes"                              \* (documents hold text)
     /\ (chal = NoChal \/ chal.alg = alg)
     /\ chal' = DV(alg, nonce + 1, p)
     /\ nonce' = nonce + 1
-    /\ UNCHANGED store
+    /\ UNCHANGED <<store, onfile>>
     /\ ev' = [op |-> "LoadPlain", alg |-> alg, p |-> p, out |-> "ok"]
 Challenge(q) ==
     /\ chal # NoChal
-    /\ UNCHANGED <<store, nonce, chal>>
+    /\ UNCHANGED <<store, nonce, chal, onfile>>
     /\ ev' = [op |-> "Challenge", q |-> q, out |-> IF q = chal.pt THEN "ok" ELSE "error"]
 SaveLoad(fmt) ==         \* dumps(fmt) then loads into a fresh configuration
     /\ chal # NoChal
-    /\ UNCHANGED <<store, nonce, chal>>
+    /\ UNCHANGED <<store, nonce, chal, onfile>>
     /\ ev' = [op |-> "SaveLoad", fmt |-> fmt, out |-> "ok"]
 
 Next ==
     \/ \E k \in Keys, m \in Methods, p \in Plaintexts : Tick /\ Encrypt(k, m, p)
     \/ \E k \in Keys, i \in DOMAIN store : Tick /\ Decrypt(k, i)
+    \/ Tick /\ Swap
     \/ \E k \in Keys, sv \in BadCts : Tick /\ DecryptBad(k, sv)
     \/ \E i \in DOMAIN store : Tick /\ DecryptTruncated(i)
     \/ \E s \in StoredShapes, fm \in Methods : Tick /\ LoadStored(s, fm)
@@ -175,7 +190,7 @@ Next ==
 C08_ConcreteMethod == \A i \in DOMAIN store : store[i].sv.m \in {"aes", "xor"}
 \* decrypting what was encrypted with the same key returns the original bytes
 C08_Inverse ==
-    (ev.op = "Decrypt" /\ ev.key = store[ev.i].key) => ev.out = "ok" /\ ev.ret = BytesV(store[ev.i].pt)
+    (ev.op = "Decrypt" /\ onfile[ev.key] = store[ev.i].key) => ev.out = "ok" /\ ev.ret = BytesV(store[ev.i].pt)
 \* two encryptions never share an IV, so equal plaintexts never give equal ciphertexts
 C08_FreshIV ==
     \A i, j \in DOMAIN store :
@@ -183,7 +198,7 @@ C08_FreshIV ==
             store[i].sv.ct.iv # store[j].sv.ct.iv /\ store[i].sv # store[j].sv
 \* a different key never yields the plaintext of an AES value
 C08_WrongKey ==
-    (ev.op = "Decrypt" /\ store[ev.i].sv.m = "aes" /\ store[ev.i].key # ev.key) => ev.notpt
+    (ev.op = "Decrypt" /\ store[ev.i].sv.m = "aes" /\ store[ev.i].key # onfile[ev.key]) => ev.notpt
 \* XOR is its own inverse with the key repeated over the data
 C08_XorInvolution ==
     \A k \in Keys, p \in Plaintexts :
@@ -206,5 +221,5 @@ C09_HandWrittenHashed == ev.op = "LoadPlain" => chal.pt = ev.p /\ chal.salt = no
 
 Export == PrintT(<<"EDGE", ToJson([from |-> St, ev |-> ev', to |-> St'])>>)
 PInit  == (steps = 0) => PrintT(<<"INIT", ToJson(St)>>)
-View == <<store, nonce, chal, steps>>
+View == <<store, nonce, chal, onfile, steps>>
 =============================================================================
